@@ -8,10 +8,16 @@ def plan(ctx):
         Obligation("rand.unit", "xh", "c19", "rand_unit", timeout=T, bounds="draw: any float in [0,1)", desc="rand() in [0, 1)"),
         Obligation("rand.ints", "xh", "c19", "rand_ints", timeout=T, bounds="host ints a <= b unbounded; draw any int in [a, b]",
                    desc="rand(a, b) integer n with a <= n <= b (incl. a == b, negative, large)"),
+        Obligation("rand.ints_concrete", "xh", "c19", "rand_ints_concrete", timeout=T * 2,
+                   bounds="bounds from 8 host ints (negative, 0, > 2**31, < -2**33); random() from 6 values up to 1 - 2**-53; randint/randrange draws within 2 of either end",
+                   desc="rand(a, b) in [a, b] for concrete draws of every generator function"),
         Obligation("rand.decimals", "xh", "c19", "rand_decimals", timeout=T,
                    bounds="bounds from a pool of 11 integer-valued Decimals (incl. 1E+1, 2.0, 20 and 29 digits, negative); draw within 2 of either end (concrete ints, so Decimal arithmetic downstream is the real one)",
                    desc="rand(a, b) with integer-valued Decimal bounds (what literals produce)"),
         Obligation("rand.choice", "xh", "c19", "rand_choice", timeout=T, bounds="list 1..4 symbolic ints", desc="rand(list) returns an element"),
+        Obligation("shuffle.equal_elements", "xh", "c19", "shuffle_perm", param={"eq_all": True}, timeout=T * 2,
+                   bounds="list of 0..4 objects that all compare EQUAL but are distinguishable (like 1, True, Decimal('1.0'))",
+                   desc="shuffle is a permutation of the argument's OBJECTS even when they compare equal"),
         Obligation("shuffle", "xh", "c19", "shuffle_perm", timeout=T * 2, bounds="list of 0..4 distinct objects (length symbolic); Fisher-Yates draws symbolic",
                    desc="shuffle returns a new list that is a permutation; argument unchanged"),
     ]
